@@ -25,6 +25,16 @@ _WAVE_OBS = []
 _GEN = {}
 
 
+NOFRC = ("vps", "wss")   # payload follows the run-in directly: case split on the first transmitted bit (FIXVAL)
+
+
+def wave_gps(svc, rate, spl, off_us, pix="Y8", ilace=0):
+    """one grid point, or two (FIXVAL=0/1) for the services without framing code"""
+    if svc in NOFRC:
+        return [dict(wave_gp(svc, rate, spl, off_us, pix, ilace), FIXVAL=v) for v in (0, 1)]
+    return [wave_gp(svc, rate, spl, off_us, pix, ilace)]
+
+
 def wave_gp(svc, rate, spl, off_us, pix="Y8", ilace=0):
     sid, scanning, line, nbits = SVCS[svc]
     enum, bps, goff, extra = PIX[pix]
@@ -90,7 +100,8 @@ def obligations(tier, seed):
                          "vbi3_raw_decoder_decode", "decode_pattern", "vbi3_bit_slicer_slice", "bit_slicer_* (format of the instance)",
                          "vbi_raw_vbi_image (native, tables)"],
                 bounds="all payloads of one line; (service, sampling rate, samples per line, offset, pixel format) enumerated on the grid - rate/offset "
-                       "are sampled, not proved; one service requested at a time; strict = 0; %d samples per line, format %s" % (spl, pix),
+                       "are sampled, not proved; one service requested at a time; strict = 0; %d samples per line, format %s; VPS/WSS: exhaustive "
+                       "case split on the first transmitted payload bit (FIXVAL on the grid)" % (spl, pix),
                 outside="noise, non-nominal amplitude, rates/offsets between grid points, several services on one frame, more than two rows, "
                         "Teletext D 625 (needs lines sampled beyond 63 us), 2xCaption, "
                         "the legacy vbi_raw_decode wrapper (mutex + the same vbi3 decoder)",
@@ -101,19 +112,20 @@ def obligations(tier, seed):
         _WAVE_OBS.append(ob)
         return ob
 
-    q = [wave_gp("ttx_b", 13500000, 720, 9.7), wave_gp("vps", 13500000, 720, 9.7), wave_gp("cc_525", 13500000, 720, 9.0)]
-    t = q + [wave_gp(s, 13500000, 720, o) for s, o in (("ttx_b_f2", 9.7), ("ttx_a", 9.7), ("ttx_c_625", 9.7), ("wss", 9.7),
-                                                      ("cc_625", 9.7), ("cc_625_f2", 9.7), ("cc_525_f2", 9.0), ("ttx_b_525", 9.0),
-                                                      ("ttx_c_525", 9.0), ("ttx_d_525", 9.0), ("ttx_b", 8.5), ("ttx_b", 10.2), ("vps", 11.0))]
+    q = wave_gps("ttx_b", 13500000, 720, 9.7) + wave_gps("cc_525", 13500000, 720, 9.0) + wave_gps("vps", 13500000, 720, 9.7)
+    t = list(q)
+    for s_, o in (("ttx_b_f2", 9.7), ("ttx_a", 9.7), ("ttx_c_625", 9.7), ("wss", 9.7), ("cc_625", 9.7), ("cc_625_f2", 9.7),
+                  ("cc_525_f2", 9.0), ("ttx_b_525", 9.0), ("ttx_c_525", 9.0), ("ttx_d_525", 9.0), ("ttx_b", 8.5), ("ttx_b", 10.2), ("vps", 11.0)):
+        t += wave_gps(s_, 13500000, 720, o)
     obs.append(wave_ob("wave_y8_13m5", "Y8", 720, t, q))
     # other pixel formats (chroma / red / blue / alpha arbitrary) and sampling rates: thorough
     for pix in ("YUYV", "RGB24", "RGB16_LE"):
         obs.append(wave_ob("wave_%s_13m5" % pix.lower(), pix, 720,
-                           [wave_gp("ttx_b", 13500000, 720, 9.7, pix), wave_gp("vps", 13500000, 720, 9.7, pix),
-                            wave_gp("cc_525", 13500000, 720, 9.0, pix)], None, tier_="thorough", timeout=1800))
-    obs.append(wave_ob("wave_y8_14m75", "Y8", 768, [wave_gp(s_, 14750000, 768, 9.5) for s_ in ("ttx_b", "vps", "wss", "cc_625")], None,
+                           wave_gps("ttx_b", 13500000, 720, 9.7, pix) + wave_gps("vps", 13500000, 720, 9.7, pix)
+                           + wave_gps("cc_525", 13500000, 720, 9.0, pix), None, tier_="thorough", timeout=1800))
+    obs.append(wave_ob("wave_y8_14m75", "Y8", 768, sum([wave_gps(s_, 14750000, 768, 9.5) for s_ in ("ttx_b", "vps", "wss", "cc_625")], []), None,
                        tier_="thorough", timeout=1800))
-    obs.append(wave_ob("wave_y8_27m", "Y8", 1440, [wave_gp(s_, 27000000, 1440, 9.7) for s_ in ("ttx_b", "vps")], None,
+    obs.append(wave_ob("wave_y8_27m", "Y8", 1440, sum([wave_gps(s_, 27000000, 1440, 9.7) for s_ in ("ttx_b", "vps")], []), None,
                        tier_="thorough", timeout=2400))
 
     # ---- line numbers / pattern table (solver over configurations) ------------------------------------------
